@@ -1,0 +1,41 @@
+package lazy
+
+import (
+	"sync"
+
+	"github.com/coregx/coregex/nfa"
+)
+
+// pikevmPool gives every NFA fallback of a DFA its own PikeVM.
+//
+// A DFA is shared by every goroutine that searches the compiled pattern (only
+// the DFACache is per search), and a PikeVM holds mutable thread queues and a
+// visited set, so one PikeVM stored in the DFA must not be run by two searches
+// at once. The fallbacks therefore take an instance from a sync.Pool for the
+// duration of one NFA search. Instances are created on demand: a DFA that
+// never gives up allocates none.
+type pikevmPool struct {
+	pool sync.Pool
+}
+
+func newPikevmPool(n *nfa.NFA) *pikevmPool {
+	p := &pikevmPool{}
+	p.pool.New = func() any { return nfa.NewPikeVM(n) }
+	return p
+}
+
+// Search is PikeVM.Search on an instance no other search is using.
+func (p *pikevmPool) Search(haystack []byte) (int, int, bool) {
+	vm := p.pool.Get().(*nfa.PikeVM)
+	start, end, matched := vm.Search(haystack)
+	p.pool.Put(vm)
+	return start, end, matched
+}
+
+// SearchAt is PikeVM.SearchAt on an instance no other search is using.
+func (p *pikevmPool) SearchAt(haystack []byte, at int) (int, int, bool) {
+	vm := p.pool.Get().(*nfa.PikeVM)
+	start, end, matched := vm.SearchAt(haystack, at)
+	p.pool.Put(vm)
+	return start, end, matched
+}
